@@ -431,7 +431,8 @@ class TypeTransformer:
                 if data.lower() in self.TRUE_VALUES:
                     return 1
             elif isinstance(data, t):
-                return data
+                # including a bool taken out of a one-item sequence: [True] -> 1, as True -> 1 above
+                return t(data)
 
         try:
             data = Decimal(data)
